@@ -3,6 +3,7 @@
 #![allow(dead_code)]
 
 mod c01;
+mod c10;
 mod cfgmut;
 mod common;
 mod defs;
@@ -53,6 +54,7 @@ fn main() {
 		"C03" => dispatch!(defs::DefCheck { id: "C03", suts: defs::C03_SUTS }, args),
 		"C04" => dispatch!(defs::DefCheck { id: "C04", suts: defs::C04_SUTS }, args),
 		"C14" => dispatch!(defs::DefCheck { id: "C14", suts: defs::C14_SUTS }, args),
+		"C10" => dispatch!(c10::C10, args),
 		"C09" => dispatch!(sched::SchedCheck { id: "C09" }, args),
 		"C13" => dispatch!(sched::SchedCheck { id: "C13" }, args),
 		"selfcheck-determinism" => {
